@@ -388,7 +388,7 @@ func (ps *exprParser) parseBin(minPrec int) (*Expr, error) {
 
 func (ps *exprParser) parseUnary() (*Expr, error) {
 	t := ps.peek()
-	if t.kind == "op" && (t.text == "!" || t.text == "-") {
+	if t.kind == "op" && (t.text == "!" || t.text == "-" || t.text == "*") {
 		ps.next()
 		e, err := ps.parseUnary()
 		if err != nil {
